@@ -51,6 +51,31 @@ def main(p):
                                         doc=(doc or '')[:300]))
         elif len(out['samples']) < 2:
             out['samples'].append(dict(element=full, kind=kind, comment=text))
+        # a method's docstring also describes its request ("The request object. <comment>") and what it returns
+        if kind == 'method':
+            svc, m = full.rsplit('.', 2)[1:]
+            md = None
+            for pf in p.req.proto_file:
+                if pf.package == tp:
+                    for s_ in pf.service:
+                        if s_.name == svc:
+                            md = next((x for x in s_.method if x.name == m), md)
+            if md is not None:
+                for role, tname in (('request', md.input_type), ('response', md.output_type)):
+                    t = comments.get(tname.lstrip('.'))
+                    if t is None or tname in ('.google.protobuf.Empty', '.google.longrunning.Operation') or md.client_streaming:
+                        continue
+                    out['checked'] += 1
+                    for cname, d_ in (('', doc), ('async-', None)):
+                        if cname:
+                            try:
+                                d_ = getattr(lib.client_cls(svc, True), names.py_method(m)).__doc__
+                            except AttributeError:
+                                continue
+                        if not d_ or not subsequence(t.split(), d_.split()):
+                            out['failures'].append(dict(element=full, kind=f'{cname}method-{role}-doc', place=places.get(tname.lstrip('.'), 'leading'),
+                                                        what=f'the comment of the {role} message {tname} is missing from the method docstring',
+                                                        text=t, doc=(d_ or '')[:300]))
         # the asyncio client carries the same comments
         adoc = None
         try:
